@@ -65,7 +65,8 @@ RULE = (
     "case = (variables with values from a special-character token alphabet, functions = lists of statement templates "
     "with nesting, piece order, var/func pattern lists, whitelist flags, locale); non-trivial = some surviving definition "
     "follows a function (kept or removed) whose dumped body contains a brace/paren inside quotes or an expansion, a "
-    "here-document, or a case statement; distinct = canonical JSON of the case"
+    "here-document, or a case statement, or follows a variable line with a backslash before a quote, $'..' quoting or a "
+    "brace/paren/newline in its value; distinct = canonical JSON of the case"
 )
 ASSUMPTIONS = [
     "a dump consists of `set`-style assignment lines, `declare -p` lines and `declare -f` output, as bash 5.2 prints them",
@@ -75,7 +76,7 @@ ASSUMPTIONS = [
 ]
 BUDGET = {"quick": 50, "thorough": 900}
 
-BATCH = 25
+BATCH = 50
 BASH_TIMEOUT = 240
 
 # ---------------------------------------------------------------------------------------------------------
@@ -113,6 +114,12 @@ LEAF = {
     "regex": "[[ $x =~ ^\\{.*\\}$ ]]",
     "test_single": '[ "$x" = "}" ]',
     "heredoc": "cat <<EOF\n}\n{ $x\nEOF",
+    "heredoc_empty": "cat <<EOF\nEOF",
+    "heredoc_empty_redirect": "cat > /dev/null <<EOF\nEOF\necho \"}\"",
+    "heredoc_empty_dash": "cat <<-EOF\n\tEOF",
+    "heredoc_empty_q": "cat <<'EOF'\nEOF",
+    "heredoc_oneline": "cat <<EOF\n$x\nEOF",
+    "heredoc_blank_lines": "cat <<EOF\n\n}\n\nEOF",
     "heredoc_dash": "cat <<-EOF\n\t}\n\tEOF",
     "heredoc_q": "cat <<'EOF'\n} ' \"\n# not a comment }\nEOF",
     "heredoc_qbrace": "cat <<'E}F'\n}\nE}F",
@@ -160,6 +167,9 @@ NEST_IDS = sorted(NEST)
 # a dumped body is "tricky" (non-trivial rule) if it has a brace/paren in quotes or expansions, a here-doc or a case
 TRICKY = re.compile(r"""["'][^"'\n]*[{}()][^"'\n]*["']|\$\{[^}\n]*["'\\]|<<|\bcase\b|\\[{}()]|\$'""")
 
+# a variable line is "tricky" if its text has a backslash in front of a quote, ANSI-C quoting, or a brace/paren/newline
+VAR_TRICKY = re.compile(r"""\\['"]|\$'|[{}()\n].*['"]""", re.S)
+
 VAL_TOKENS = ["}", "{", "(", ")", "'", '"', "\\", "$", "`", "\n", "\t", " ", ";", "#", "<<", "=", "a", "b", "é", "日本",
               "\x01", "\x7f", "\x1b", "$(", "${", "$'", "()", "{}", "\\n", "''", "*", "?", "[", "]", "&", "|", ">", "~", "!",
               "EOF", "-", "function", "f ()", "\n}\n", " # "]
@@ -183,8 +193,22 @@ _FUNC_NAMES = ["vf_a", "vf_b", "vf_ab", "vf_a1", "vf_a2", "vq_a", "vq_b1", "vf-d
                "vf_long_name", "VT_a"]
 
 
-def _value_text():
-    return st.lists(st.sampled_from(VAL_TOKENS), min_size=0, max_size=6).map("".join)
+# runs of backslashes, also directly in front of a quote (even/odd runs decide whether the quote is escaped)
+_BS_TOKENS = ["\\", "\\\\", "\\\\\\", "\\'", "\\\\'", "\\\\\\'", "\\\"", "\\\\\"", "\\\\\\\"", "\\$", "\\\\n"]
+_CTRL = ["\t", "\n", "\x01", "\x1b", "\x7f", "\r"]
+
+
+@st.composite
+def _value_text(draw):
+    """token soup; a third of the values end in a run of 1-3 backslashes, a third contain a control character
+    (bash then writes the value as $'...'), independently - so every form bash emits ('..', "..", $'..', array
+    elements) gets values whose last character before the closing quote is an (escaped) backslash"""
+    toks = draw(st.lists(st.sampled_from(VAL_TOKENS + _BS_TOKENS), min_size=0, max_size=6))
+    if draw(st.integers(0, 2)) == 0:
+        toks.insert(draw(st.integers(0, len(toks))), draw(st.sampled_from(_CTRL)))
+    v = "".join(toks)
+    tail = draw(st.sampled_from(["", "", "", "", "\\", "\\", "\\\\", "\\\\\\"]))
+    return v + tail
 
 
 @st.composite
@@ -223,6 +247,21 @@ def case_strategy(draw):
     fw = bool(ft) and draw(st.booleans())
     return {"vars": vars_, "funcs": funcs, "order": list(order), "var_tokens": vt, "func_tokens": ft,
             "var_whitelist": vw, "func_whitelist": fw, "locale": draw(st.sampled_from(["C", "C.UTF-8"]))}
+
+
+@st.composite
+def values_case(draw):
+    """cheap cases about variable values: 3-6 variables of all kinds/styles, one or two one-statement functions"""
+    vnames = draw(st.lists(st.sampled_from(_VAR_NAMES), min_size=3, max_size=6, unique=True))
+    fnames = draw(st.lists(st.sampled_from(_FUNC_NAMES), min_size=1, max_size=2, unique=True))
+    vars_ = [draw(_var(n)) for n in vnames]
+    funcs = [{"name": n, "body": [[draw(st.sampled_from(LEAF_IDS))]]} for n in fnames]
+    order = draw(st.permutations(list(range(len(vars_) + len(funcs)))))
+    vt = draw(_tokens_for(vnames, _VAR_NAMES).filter(bool))
+    ft = draw(_tokens_for(fnames, _FUNC_NAMES))
+    return {"vars": vars_, "funcs": funcs, "order": list(order), "var_tokens": vt, "func_tokens": ft,
+            "var_whitelist": draw(st.booleans()), "func_whitelist": bool(ft) and draw(st.booleans()),
+            "locale": draw(st.sampled_from(["C", "C.UTF-8"]))}
 
 
 # ---------------------------------------------------------------------------------------------------------
@@ -534,12 +573,14 @@ def is_nontrivial(case, pieces):
             return True
         if p["kind"] == "func" and TRICKY.search(p["text"].split("\n", 2)[-1]):
             seen_tricky = True
+        if p["kind"] == "var" and VAR_TRICKY.search(p["text"]):
+            seen_tricky = True
     return False
 
 
-def evaluate(ctx, case, pieces, workdir, tag, record=True, isolate=True):
-    """filter + both oracles for one case whose pieces are already known. Returns set of buckets."""
-    reported = set()
+def stage_filter(ctx, case, pieces, workdir, tag, record=True):
+    """record the case, run the filter, apply the reference-text oracle, write the files for the judge.
+    Returns a state dict, or None if the filter crashed (recorded)."""
     dump = "".join(p["text"] for p in pieces)
     if record:
         cl = classify(case, pieces)
@@ -551,9 +592,8 @@ def evaluate(ctx, case, pieces, workdir, tag, record=True, isolate=True):
         ctx.case(case, nontrivial=is_nontrivial(case, pieces), classes=sorted(cl))
     res = core.guarded(ctx, case, lambda: run_filter(dump, case))
     if core.crashed(res):
-        return {"crash"}
+        return None
     problems = []
-    # oracle 1: reference text
     want = "".join(p["text"] for p in pieces if not expected_removed(case, p))
     try:
         got = res.decode("utf8")
@@ -564,22 +604,26 @@ def evaluate(ctx, case, pieces, workdir, tag, record=True, isolate=True):
         problems.append(("stray-nul", f"output contains NUL byte(s) at offset {got.index(chr(0))} of {len(got)}"))
     if normalise(got.replace("\0", "")) != normalise(want):
         problems.append(("text", _textdiff(normalise(want), normalise(got))))
-    # oracle 2: differential sourcing
     orig_p = os.path.join(workdir, f"{tag}.orig")
     filt_p = os.path.join(workdir, f"{tag}.filt")
     with open(orig_p, "w", encoding="utf8") as f:
         f.write(dump)
     with open(filt_p, "wb") as f:
         f.write(res)
-    vn = sorted({p["name"] for p in pieces if p["kind"] == "var"})
-    fn = sorted({p["name"] for p in pieces if p["kind"] == "func"})
-    r = run_bash(judge_script(vn, fn, orig_p, filt_p), locale=case["locale"], cwd=workdir)
-    j = parse_judge(r.stdout)
+    return {"case": case, "pieces": pieces, "problems": problems, "orig": orig_p, "filt": filt_p,
+            "vn": sorted({p["name"] for p in pieces if p["kind"] == "var"}),
+            "fn": sorted({p["name"] for p in pieces if p["kind"] == "func"})}
+
+
+def stage_compare(ctx, st_, j, workdir, isolate=True):
+    """differential oracle on the judge's report `j` for one case; records the violation(s); returns the buckets"""
+    case, pieces, problems = st_["case"], st_["pieces"], st_["problems"]
+    reported = set()
     if "O" not in j or "N" not in j:
-        raise core.HarnessError(f"judge bash gave no result: {r.stderr[-300:]!r}")
-    with open(orig_p + ".err", "rb") as f:
+        raise core.HarnessError("judge bash gave no result for a case")
+    with open(st_["orig"] + ".err", "rb") as f:
         oerr = f.read()
-    with open(filt_p + ".err", "rb") as f:
+    with open(st_["filt"] + ".err", "rb") as f:
         nerr = f.read()
     if oerr.strip() or j["O"]["status"] != "0":
         # the unfiltered dump itself does not source cleanly: bash wrote something bash cannot read back
@@ -589,7 +633,7 @@ def evaluate(ctx, case, pieces, workdir, tag, record=True, isolate=True):
         if nerr.strip() or j["N"]["status"] != "0":
             problems.append(("source", f"filtered text does not source cleanly: status {j['N']['status']}, "
                                        f"stderr {nerr[-200:]!r}"))
-        for kind, names in (("v", vn), ("f", fn)):
+        for kind, names in (("v", st_["vn"]), ("f", st_["fn"])):
             for n in names:
                 o, nw = j["O"][kind].get(n, b""), j["N"][kind].get(n, b"")
                 surv = [p for p in pieces if p["name"] == n and p["kind"] == ("var" if kind == "v" else "func")]
@@ -609,6 +653,32 @@ def evaluate(ctx, case, pieces, workdir, tag, record=True, isolate=True):
             reported.add(bucket)
             ctx.violation(bucket, case, msg)
     return reported
+
+
+def evaluate_many(ctx, items, workdir, record=True, isolate=True):
+    """items = [(case, pieces, tag)]: filter each, ONE judge bash per locale for all of them, compare each.
+    Returns the list of bucket sets."""
+    states = [stage_filter(ctx, c, ps, workdir, tag, record=record) for c, ps, tag in items]
+    out = [({"crash"} if st_ is None else None) for st_ in states]
+    by_loc = {}
+    for k, st_ in enumerate(states):
+        if st_ is not None:
+            by_loc.setdefault(st_["case"]["locale"], []).append(k)
+    for loc, idxs in by_loc.items():
+        script = "".join("printf 'CASE\\0'\n" + judge_script(states[k]["vn"], states[k]["fn"], states[k]["orig"],
+                                                             states[k]["filt"]) for k in idxs)
+        r = run_bash(script, locale=loc, cwd=workdir)
+        chunks = r.stdout.split(b"CASE\0")[1:]
+        if len(chunks) != len(idxs):
+            raise core.HarnessError(f"judge bash returned {len(chunks)} chunks for {len(idxs)} cases: {r.stderr[-300:]!r}")
+        for k, ch in zip(idxs, chunks):
+            out[k] = stage_compare(ctx, states[k], parse_judge(ch), workdir, isolate=isolate)
+    return out
+
+
+def evaluate(ctx, case, pieces, workdir, tag, record=True, isolate=True):
+    """filter + both oracles for one case whose pieces are already known. Returns set of buckets."""
+    return evaluate_many(ctx, [(case, pieces, tag)], workdir, record=record, isolate=isolate)[0]
 
 
 def _textdiff(want, got):
@@ -643,6 +713,31 @@ def _breaks(text):
     return False
 
 
+def _inner_context(ctx_, nest_id):
+    """how the filter walks the body of a nest: inside a `{ }` group / `( )` sub-shell everything (nested functions,
+    loops, ...) is walked by the raw walker; only `$( )` hands control back to the full command parser"""
+    if nest_id == "comsub_block":
+        return "top"
+    if ctx_ != "top":
+        return ctx_
+    return {"group": "group", "group_redirect": "group", "subshell": "subshell"}.get(nest_id, "top")
+
+
+def heredoc_in_raw_context(body, ctx_="top"):
+    """(context, leaf id) of the first here-document leaf of a statement tree that sits inside a group / sub-shell"""
+    for s in body:
+        if len(s) == 1:
+            if ctx_ != "top" and _leaf_class(s[0]) == "heredoc":
+                return ctx_, s[0]
+        else:
+            inner = _inner_context(ctx_, s[0])
+            for sub in used_bodies(s):
+                hit = heredoc_in_raw_context(sub, inner)
+                if hit:
+                    return hit
+    return None
+
+
 def isolate_cause(case, pieces, workdir):
     """root-cause keys: every statement template (rebuilt by bash as a one-statement function) / variable line of
     the case that derails the filter on its own, in front of sentinel definitions"""
@@ -661,9 +756,7 @@ def isolate_cause(case, pieces, workdir):
         for s in b:
             occ.add((ctx_, s[0]))
             if len(s) > 1:
-                inner = {"group": "group", "group_redirect": "group", "subshell": "subshell"}.get(s[0], ctx_)
-                if s[0] in ("comsub_block", "nested_func", "nested_func_kw"):
-                    inner = "top"  # parsed by process_scope again
+                inner = _inner_context(ctx_, s[0])
                 for sub in used_bodies(s):
                     walk(sub, inner)
     for f in case["funcs"]:
@@ -698,7 +791,13 @@ def isolate_cause(case, pieces, workdir):
             if txt is not None and _breaks(txt):
                 if _breaks(f"{f['name']} () \n{{ \n    :\n}}\n"):  # the name itself, not the body
                     return ["function-name:" + ("".join(sorted(set(re.sub(r"\w", "", f["name"])))) or "identifier")]
-                return ["min:" + signature(minimise_body(f["body"], loc, workdir))]
+                small = minimise_body(f["body"], loc, workdir)
+                # 1-minimal: every statement and every nest left is needed.  If that includes a here-document
+                # inside a group / sub-shell the root cause is the raw walker's missing here-doc support
+                hit = heredoc_in_raw_context(small)
+                if hit:
+                    return [f"stmt-in-{hit[0]}:{hit[1]}"]
+                return ["min:" + signature(small)]
         return ["not-isolated"]
     return sorted(culprits)
 
@@ -814,22 +913,29 @@ def process_batch(ctx, cases, workdir, base):
                 pieces[i] = parse_dump(ch, cases[i])
             except core.HarnessError as e:
                 raise core.HarnessError(f"{e}; case {core.jdump(cases[i])}; stderr {r.stderr[-300:]!r}") from None
+    items = []
     for i, c in enumerate(cases):
         if not pieces[i]:
             ctx.count("empty_dump")
             continue
-        evaluate(ctx, c, pieces[i], workdir, f"{base}-{i}")
+        items.append((c, pieces[i], f"{base}-{i}"))
+    evaluate_many(ctx, items, workdir)
 
 
 def plan(tier, seed):
+    # cheap first: "values" cases (variable lines + one-statement functions, ~half the cost) before the full grammar,
+    # so that a budget-truncated run has at least covered every value/quoting class
     if tier == "quick":
-        return [{"task": "hyp", "examples": 150} for _ in range(16)]
-    return [{"task": "hyp", "examples": 4000} for _ in range(32)]
+        return ([{"task": "values", "examples": 300} for _ in range(4)]
+                + [{"task": "hyp", "examples": 150} for _ in range(12)])
+    return ([{"task": "values", "examples": 4000} for _ in range(8)]
+            + [{"task": "hyp", "examples": 4000} for _ in range(24)])
 
 
 def run_task(ctx, task, **kw):
-    if task != "hyp":
+    if task not in ("hyp", "values"):
         raise core.HarnessError(f"unknown task {task}")
+    strategy = case_strategy() if task == "hyp" else values_case()
     workdir = ctx.fresh_dir("c34")
     pending = []
     n = [0]
@@ -849,7 +955,7 @@ def run_task(ctx, task, **kw):
         if len(pending) >= BATCH:
             flush()
 
-    core.hyp_run(ctx, case_strategy(), f, kw["examples"], chunk=BATCH * 2)
+    core.hyp_run(ctx, strategy, f, kw["examples"], chunk=BATCH * 2)
     flush()
 
 
